@@ -169,6 +169,15 @@ def svd_stream(ctx, n):
             if not ok:
                 ctx.disagree(f"C20:null_space:{'complex' if et.is_complex else 'real'}", desc, f"orthonormal basis of the kernel, dim {A.shape[1] - rk}",
                              (Q.shape, float(np.max(np.abs(A @ Q))) if Q.size else 0), replay=[desc])
+        # the same with the dimension handed over by the caller (the library itself always does so), dimension 0 included
+        nsd = call_impl(gu.null_space, A, A.shape[1] - rk)
+        od = call_impl(gu.orth, A, rk)
+        okd = nsd[0] == "ok" and np.asarray(nsd[1]).shape == (A.shape[1], A.shape[1] - rk) and \
+            (np.asarray(nsd[1]).size == 0 or np.allclose(A @ np.asarray(nsd[1]), 0, atol=1e-9))
+        okd = okd and od[0] == "ok" and np.asarray(od[1]).shape == (A.shape[0], rk)
+        if not okd:
+            ctx.disagree("C20:null_space:explicit-dim", desc + f" dim={A.shape[1] - rk}", f"kernel basis of shape {(A.shape[1], A.shape[1] - rk)}, range basis {(A.shape[0], rk)}",
+                         (np.asarray(nsd[1]).shape if nsd[0] == "ok" else nsd[1:3], np.asarray(od[1]).shape if od[0] == "ok" else od[1:3]), replay=[desc])
         o = call_impl(gu.orth, A)
         if o[0] != "ok":
             ctx.disagree("C20:orth:error", desc, f"rank {rk}", o[1:3], replay=[desc])
